@@ -27,6 +27,8 @@ for p in sorted(glob.glob("/verif/refactors/*/r*.diff")):
     run(["git", "-C", WT, "clean", "-fdq"])
     r = run(["git", "-C", WT, "apply", p])
     if r.returncode:
+        r = run(["git", "-C", WT, "apply", "--3way", p])
+    if r.returncode:
         print("DOES NOT APPLY", p)
         bad += 1
         continue
